@@ -1058,4 +1058,69 @@ example : ∃ s, instantiate ⟨3600, ⟨true, "gov"⟩, [(⟨true, "T1"⟩, som
       [.op b0 (.connect "channel-0" ICS20_VERSION none false {}), .op b0 (.sendCw20 "alice" "T1" 40 (some tm))]).c.pending :=
   ⟨_, rfl, ⟨trivial, trivial, trivial⟩, by decide⟩
 
+/-! ## The emitted packet carries what was really escrowed -/
+
+/-- **C12, transfer_escrow_effects** (the balance side of `transfer_emits_one_packet`: "a packet carrying
+the *escrowed* amount"): for an accepted transfer the amount in the emitted packet is exactly what moved
+into the contract —
+* native: the sender's bank balance of that denomination dropped by `amt` (it had at least `amt`), the
+  contract's rose by `amt`, every other bank balance and every cw20 balance is unchanged;
+* cw20 `Send`: the same for the token balances of that token (a token that exists), every other token
+  balance and every bank balance unchanged;
+* a direct `Receive` hook call (the caller is not a token contract that exists: E1) moves nothing at all —
+  the packet's denomination `cw20:<caller>` is then no real token and has no holdings. -/
+theorem transfer_escrow_effects {w w' : World} {blk : Block} {o : Outcome} :
+    (∀ snd funds msg, w.exec blk (.transferNative snd funds msg) = .ok (w', o) →
+      ∃ d amt out, funds = [(d, amt)] ∧ o.sent = [out] ∧ out.packet.amount = amt ∧ out.packet.denom = .native d ∧
+        amt ≤ w.bankBal snd d ∧ w'.bankBal snd d + amt = w.bankBal snd d ∧
+        w'.bankBal w.self d = w.bankBal w.self d + amt ∧
+        (∀ a x, (a, x) ≠ (snd, d) → (a, x) ≠ (w.self, d) → w'.bankBal a x = w.bankBal a x) ∧ w'.tok = w.tok) ∧
+    (∀ snd token amt msg, w.exec blk (.sendCw20 snd token amt msg) = .ok (w', o) →
+      ∃ out, o.sent = [out] ∧ out.packet.amount = amt ∧ out.packet.denom = .cw20 token ∧ w.tokens.contains token = true ∧
+        amt ≤ w.tokBal token snd ∧ w'.tokBal token snd + amt = w.tokBal token snd ∧
+        w'.tokBal token w.self = w.tokBal token w.self + amt ∧
+        (∀ t a, (t, a) ≠ (token, snd) → (t, a) ≠ (token, w.self) → w'.tokBal t a = w.tokBal t a) ∧ w'.bank = w.bank) ∧
+    (∀ snd funds sender amt msg, w.exec blk (.hook snd funds sender amt msg) = .ok (w', o) →
+      ∃ out, o.sent = [out] ∧ out.packet.amount = amt ∧ out.packet.denom = .cw20 snd ∧
+        w'.bank = w.bank ∧ w'.tok = w.tok ∧ w.holdings (.cw20 snd) = none) := by
+  refine ⟨?_, ?_, ?_⟩
+  · intro snd funds msg h
+    obtain ⟨d, amt, w1, s, out, rfl, hself, hb, hs, rfl, rfl⟩ := exec_transferNative_spec h
+    obtain ⟨ch, _, _, _, _, _, _, rfl, _⟩ := execTransfer_spec hs
+    obtain ⟨hle, hbal⟩ := bankSend_spec hb
+    have htk := (bankSend_frame hb).2.1
+    refine ⟨d, amt, _, rfl, rfl, rfl, rfl, hle, ?_, ?_, ?_, htk⟩
+    · have := hbal snd d; simp [Ne.symm hself] at this
+      show w1.bankBal snd d + amt = _
+      rw [this]; omega
+    · have := hbal w.self d; simp [hself] at this
+      exact this
+    · intro a x h1 h2
+      have := hbal a x
+      simp [Ne.symm h1, Ne.symm h2] at this
+      exact this
+  · intro snd token amt msg h
+    obtain ⟨w1, m, s, out, hself, htoken, hb, rfl, hs, rfl, rfl⟩ := exec_sendCw20_spec h
+    obtain ⟨ch, _, _, _, _, _, _, rfl, _⟩ := execTransfer_spec hs
+    obtain ⟨hle, hbal⟩ := tokSend_spec hb
+    have hbk := (tokSend_frame hb).2.1
+    refine ⟨_, rfl, rfl, rfl, htoken, hle, ?_, ?_, ?_, hbk⟩
+    · have := hbal token snd; simp [Ne.symm hself] at this
+      show w1.tokBal token snd + amt = _
+      rw [this]; omega
+    · have := hbal token w.self; simp [hself] at this
+      exact this
+    · intro t a h1 h2
+      have := hbal t a
+      simp [Ne.symm h1, Ne.symm h2] at this
+      exact this
+  · intro snd funds sender amt msg h
+    obtain ⟨m, s, out, hnt, rfl, hs, rfl, rfl⟩ := exec_hook_spec h
+    obtain ⟨ch, _, _, _, _, _, _, rfl, _⟩ := execTransfer_spec hs
+    exact ⟨_, rfl, rfl, rfl, rfl, rfl, by simp only [World.holdings, hnt, Bool.false_eq_true, if_false]⟩
+
+/-- the first transfer of the demo history moves 40 T1 from alice into the contract -/
+example : (w0.step b0 (.sendCw20 "alice" "T1" 40 (some tm))).tokBal "T1" "ics20" = 40 ∧
+    (w0.step b0 (.sendCw20 "alice" "T1" 40 (some tm))).tokBal "T1" "alice" = 60 := by decide
+
 end CwPlus.Props.C12
